@@ -14,9 +14,19 @@ func baseScenarios() []*harness.Scenario {
 	return []*harness.Scenario{
 		{
 			Kind: action.SEND.String(), Note: "plain",
-			World:  world,
+			World: world,
 			Target: func(w *harness.World) *harness.TxSpec {
 				return harness.Send(w.Users[0], w.Users[1].Addr, harness.Coin("OLT", harness.OLTUnits(5)), "send-1")
+			},
+			After: 2,
+		},
+		{
+			// the sender's account is held by a SECP256K1 key (its address is the Tendermint secp256k1 address:
+			// RIPEMD160(SHA256(compressed key)), which other key types can collide with by construction)
+			Kind: action.SEND.String(), Note: "from-a-secp256k1-account",
+			World: world,
+			Target: func(w *harness.World) *harness.TxSpec {
+				return harness.Send(w.SecpUsers[0], w.Users[1].Addr, harness.Coin("OLT", harness.OLTUnits(4)), "send-secp")
 			},
 			After: 2,
 		},
